@@ -299,6 +299,30 @@ QueryClause(m, ev) ==
             IF ev.found /\ Inst(m, ev.r) = Inst(m, ser[k]) THEN "ok" ELSE "first_after"
   ELSE "unknown-query"
 
+\* Beyond the listed properties: a recurrence with a min_point / max_point window.  ev: base (the unwindowed iteration),
+\* pts (the windowed one, same take limit), valid[i] = get_is_valid(base[i]), items[j] = r[j].  Demanded is only what
+\* every reading of the window allows: yielded points lie inside the window and are members of the unwindowed series in
+\* its order, and C13's own statement (valid exactly when yielded, r[j] the j-th yielded point).  Whether iteration
+\* skips or stops at a point outside the window is ImplRec's WindowPrefix / WindowFilter, not judged here.
+\* Clause names beginning "ext:" are reported as deviations from the extended specification, never as violations of C13.
+WindowClause(m, ev) ==
+  LET inwin(p) == /\ (ev.hasMin => Le3(Inst(m, ev.min), Inst(m, p)))
+                  /\ (ev.hasMax => Le3(Inst(m, p), Inst(m, ev.max)))
+      nb == Len(ev.base)  np == Len(ev.pts)
+      idx(j) == IF \E i \in 1..nb : SameTP(ev.base[i], ev.pts[j]) THEN CHOOSE i \in 1..nb : SameTP(ev.base[i], ev.pts[j]) ELSE 0
+      beyond(p) == ~ev.complete /\ nb > 0 /\
+                   (IF ev.forward THEN Lt3(Inst(m, ev.base[nb]), Inst(m, p)) ELSE Lt3(Inst(m, p), Inst(m, ev.base[nb])))
+  IN
+  IF ~ev.ok THEN "ext:raised-" \o ev.cls
+  ELSE IF \E j \in 1..np : ~ValidTP(m, ev.pts[j]) THEN "ext:yielded-invalid-point"
+  ELSE IF \E j \in 1..np : ~inwin(ev.pts[j]) THEN "ext:yielded-outside-window"
+  ELSE IF \E j \in 1..np : idx(j) = 0 /\ ~beyond(ev.pts[j]) THEN "ext:yielded-non-member"
+  ELSE IF \E j \in 1..(np - 1) : idx(j) > 0 /\ idx(j + 1) > 0 /\ idx(j) >= idx(j + 1) THEN "ext:window-reorders-series"
+  ELSE IF \E i \in 1..nb : LET mem == \E j \in 1..np : Inst(m, ev.pts[j]) = Inst(m, ev.base[i]) IN
+                             (mem \/ ev.wcomplete) /\ ev.valid[i] # mem THEN "get_is_valid#yielded"
+  ELSE IF Len(ev.items) # np \/ \E j \in 1..np : ~SameTP(ev.items[j], ev.pts[j]) THEN "getitem#yielded"
+  ELSE "ok"
+
 \* C14: shifting.  ev: inp (as above), d (shift), r2 (projection of the result), pts2 (its iteration), eqback ((r+d)-d == r)
 ShiftClause(m, ev) ==
   LET inp == it.inp  sh == ev.d  r2 == ev.r2  iv == IterDur(m, inp) IN
@@ -668,6 +692,7 @@ Clause(ev) ==
     [] ev.op = "IterAbandon" -> "ok"
     [] ev.op = "Notations" -> NotationsClause(mode, ev)
     [] ev.op = "Query"    -> QueryClause(mode, ev)
+    [] ev.op = "Window"   -> WindowClause(mode, ev)
     [] ev.op = "Shift"    -> ShiftClause(mode, ev)
     [] ev.op = "RecEq"    -> RecEqClause(mode, ev)
     [] ev.op = "RecText"  -> RecTextClause(mode, ev)
